@@ -279,6 +279,8 @@ def run(ctx):
         if len(samples) < 3:
             samples.append({'pattern': pat, 'name': name, 'captures': caps})
     ctx.counted('capture groups on known derivations', evals, len(seen), samples)
+    from props import fringe
+    fringe.nonascii_case(ctx, 'translate vs match on letters outside ASCII')
     return ctx.finish(RULE)
 
 
